@@ -19,11 +19,11 @@ CHECKS = {
     "C09": hist("Instrumented sources count register/reregister/unregister calls; after each process_events return the effective post-action (explicit over deferred) must show exactly its calls on exactly that source and none on any other, including after Err returns and slot reuse inside the callback; the deferred cell is observed empty between events (statistics hook)."),
     "C13": hist("Idle callbacks: exactly once, after all source callbacks of the first Ok dispatch, insertion order, idle-of-idle deferred to the next dispatch, cancelled never, failed dispatch runs none, closures dropped exactly once."),
     "C14": hist("Lifecycle probes with several ping sub-sources and optional synthetic events: one before_sleep then one before_handle_events per live lifecycle source before any event processing, synthetic event delivered in the same dispatch and never shown to the iterator, iterator covers exactly own real events, lifecycle list == enabled lifecycle sources after every step incl. failed registrations."),
-    "C15": ("hist", "fault_enumeration", "fault injection over generated histories (failing register at sub-step k / reregister / unregister / process_events / before_sleep, scripted Err returns) with a trace-checking reference monitor; thorough tier adds a coverage-guided libFuzzer campaign over the same grammar and oracle", "Faults are injected at generated registration steps and event-processing calls of generated histories which then continue; the failing call must return its error, hand the source back, leave slots / lifecycle list / kernel table as before, never make a later dispatch panic, and every cause pending before an Err must still be served afterwards. Positions are sampled (proptest), not enumerated exhaustively per history.", HIST_NOTE, "DESIGN.md section 4 C15"),
+    "C15": ("hist", "fault_enumeration", "fault enumeration: every fault site (probe register sub-step / reregister / unregister / process_events / before_sleep call, in execution order) of each generated fault-free base history is failed in a run of its own; plus sampled fault injection inside random histories (scripted Err returns, bad fds, composites with a rejected child); trace-checking reference monitor; thorough tier adds a coverage-guided libFuzzer campaign over the same grammar and oracle", "Faults are injected at generated registration steps and event-processing calls of generated histories which then continue; the failing call must return its error, hand the source back, leave slots / lifecycle list / kernel table as before, never make a later dispatch panic, and every cause pending before an Err must still be served afterwards. Sub-check 'positions' enumerates all fault positions of every generated base history (exhaustive per base history; the base histories themselves are sampled); sub-check 'hist' samples positions inside longer random histories.", HIST_NOTE, "DESIGN.md section 4 C15"),
     "C16": hist("After every step the kernel's epoll table (/proc/self/fdinfo) minus polling's own entries must equal the model's set of enabled fd registrations: keys for all, interest/mode bits and fd for Generic sources; released fds are re-inserted.", "model-based property-based testing with a kernel oracle (/proc/self/fdinfo epoll table) after every generated step; thorough tier adds a coverage-guided libFuzzer campaign over the same history grammar and oracle"),
-    "C03": ("sched", "exploration", "schedule exploration: generated thread interleavings at yield-site granularity (cooperative scheduler over the hook, proptest-generated + bounded-exhaustive DFS schedules) plus single-thread history PBT; logical-clock oracle", "Actor threads with ping/clone/drop programs against a dispatching loop thread; the interleaving of every eventfd write, drain read and handle drop is the generated input; every ping served by a later callback, at most one callback per dispatch, no callback without a ping that can have landed after the previous drain, clean self-removal when the last handle goes, no spinning afterwards. Plus ping histories through the history machine.", "schedules are explored at the granularity of the hook's yield sites on x86-TSO with the real atomics; weaker memory orderings and preemption inside a site-free region are out of reach; blocked threads are detected through /proc", "DESIGN.md sections 3.4 and 4 C03"),
-    "C04": ("sched", "exploration", "schedule exploration (generated interleavings of sender threads and the loop at enqueue / wake / wake-on-drop / try_recv / re-wake sites) + history PBT + batch-limit family; per-sender FIFO reference", "Per sender delivered == sent-Ok in order exactly once, one Closed after everything and only after every sender is gone, nothing after it, settle points show that no message stays queued without a pending wake-up, blocking sends complete while the loop dispatches (blocked senders detected via /proc, decided by state), queue lengths around the 1024 batch limit drain without external wake-up. Known finding F6 (sync_channel(0)) is listed and steered around.", "as C03; a stranded sender is decided by state (8 further dispatches, every unfinished sender asleep in the kernel, nothing delivered), never by a timeout alone", "DESIGN.md sections 3.4 and 4 C04"),
-    "C10": ("sched", "exploration", "schedule exploration (generated interleavings of waker threads against the executor's enqueue / flag swap / eventfd write / flag clear / dequeue / re-wake / drop sites, incl. mid-poll) + batch-limit family + scripted StreamSource", "Scripted non-Send futures: every scheduled future polled, a poll after every wake of a pending task, polls and drops only on the loop thread, each Ready(v) delivered exactly once, every future dropped exactly once when the executor goes (checked before the Scheduler goes), ExecutorDestroyed afterwards; 0..3100 ready tasks drain over consecutive dispatches without external wake-up, scheduling from callbacks and futures; stream items in order, one None, then removal. Known finding F7 (wake in flight while the executor is dropped) is listed and steered around.", "as C03; async-task's own atomics have no yield sites; windows that exist only in changed code have no site either", "DESIGN.md sections 3.4 and 4 C10"),
+    "C03": ("sched", "exploration", "schedule exploration: generated thread interleavings at yield-site granularity (cooperative scheduler over the hook, proptest-generated + bounded-exhaustive DFS schedules) plus a free-running stress sub-check (real concurrency, CLOCK_MONOTONIC oracle) and single-thread history PBT; logical-clock oracle", "Actor threads with ping/clone/drop programs against a dispatching loop thread; the interleaving of every eventfd write, drain read and handle drop is the generated input; every ping served by a later callback, at most one callback per dispatch, no callback without a ping that can have landed after the previous drain, clean self-removal when the last handle goes, no spinning afterwards. Plus ping histories through the history machine.", "schedules are explored at the granularity of the hook's yield sites on x86-TSO with the real atomics; weaker memory orderings and preemption inside a site-free region are out of reach; blocked threads are detected through /proc", "DESIGN.md sections 3.4 and 4 C03"),
+    "C04": ("sched", "exploration", "schedule exploration (generated interleavings of sender threads and the loop at enqueue / wake / wake-on-drop / try_recv / re-wake sites) + free-running stress sub-check + history PBT + batch-limit family; per-sender FIFO reference", "Per sender delivered == sent-Ok in order exactly once, one Closed after everything and only after every sender is gone, nothing after it, settle points show that no message stays queued without a pending wake-up, blocking sends complete while the loop dispatches (blocked senders detected via /proc, decided by state), queue lengths around the 1024 batch limit drain without external wake-up. Known finding F6 (sync_channel(0)) is listed and steered around.", "as C03; a stranded sender is decided by state (8 further dispatches, every unfinished sender asleep in the kernel, nothing delivered), never by a timeout alone", "DESIGN.md sections 3.4 and 4 C04"),
+    "C10": ("sched", "exploration", "schedule exploration (generated interleavings of waker threads against the executor's enqueue / flag swap / eventfd write / flag clear / dequeue / re-wake / drop sites, incl. mid-poll) + free-running stress sub-check + executor batch-limit family + stream burst family + single-thread histories with Executor sources + scripted StreamSource", "Scripted non-Send futures: every scheduled future polled, a poll after every wake of a pending task, polls and drops only on the loop thread, each Ready(v) delivered exactly once, every future dropped exactly once when the executor goes (checked before the Scheduler goes), ExecutorDestroyed afterwards; 0..3100 ready tasks drain over consecutive dispatches without external wake-up, scheduling from callbacks and futures; stream items in order, one None, then removal. Known finding F7 (wake in flight while the executor is dropped) is listed and steered around.", "as C03; async-task's own atomics have no yield sites; windows that exist only in changed code have no site either", "DESIGN.md sections 3.4 and 4 C10"),
     "C11": ("sched", "exploration", "schedule exploration (generated interleavings of stop/wakeup/waker.wake against run()/block_on() at every yield site, incl. mid-poll) + bounded-exhaustive DFS of tiny configurations", "Lost wake-ups and lost stops are decided by state: the loop thread provably asleep in the poller with an unserved wake-up / wake over 300 scheduling rounds; stop visible at the loop condition must end the loop; run/block_on return values need a cause.", "as C03; 'promptly' is never measured as a duration", "DESIGN.md sections 3.4 and 4 C11"),
     "C12": ("timing", "exploration", "property-based testing over dispatch configurations on the real monotonic clock: exact lower bound, 3-times-confirmed upper bound, dead-peer sources, helper-thread wake-ups", "Configurations of timeout class x timer sets x idle/dead-peer sources x optional helper thread; with no event and no wake-up the dispatch must last at least min(timeout, earliest deadline - t_before) exactly (monotonic clock argument), a limiting timer must have fired, zero timeout never blocks, None waits for the helper; oversleep beyond 60 ms only counts when it repeats 3 times.", "lower bound relies on CLOCK_MONOTONIC and hrtimers never firing early; upper bound detects systematic errors only; module written by a sub-agent, reviewed", "DESIGN.md section 4 C12"),
     "C17": ("asyncio", "exploration", "property-based testing of Async adapter sessions (payload, chunk plans, send-buffer sizes, topologies, dispatch plans) with a byte round-trip oracle, state-based stuck detection and fcntl flag checks; thorough tier adds a libFuzzer campaign over the same session grammar", "Five topologies over a socketpair driven by calloop's executor; bytes received == bytes sent in order; a task pending while poll(2) says its fd is ready and dispatches wake nothing is a lost wake (decided by state, 1+3 dispatches); O_NONBLOCK set while adapted and restored afterwards.", "spurious wake-ups are allowed; module written by a sub-agent, reviewed", "DESIGN.md section 4 C17"),
